@@ -237,4 +237,22 @@ theorem restart_wm {c : Cfg} {a a' : ANode} {clean : Bool} (h : restart c a a.n.
     rw [w1'] at e1; rw [w2'] at e2
     refine ⟨by simpa using e1.symm, by simpa using e2.symm, rfl, rfl, rfl, fun hc => by simp [hc]⟩
 
+/-- the data watermark stays at or below the chain height -/
+theorem dataIter_wm_le (a : ANode) (script : List DAAns) (hok : DataOK a.n.store a.n.dataWm)
+    (hle : a.n.dataWm ≤ a.n.store.height) :
+    (dataIter a script).1.n.dataWm ≤ (dataIter a script).1.n.store.height := by
+  obtain ⟨items, rem, pre, hi, hmem⟩ := dataIter_inv a script
+  rw [hi.frame.height]
+  rcases hi.wmFrom with e | ⟨l, hl, e⟩
+  · have e' : (dataIter a script).1.n.dataWm = a.n.dataWm := e
+    omega
+  · have e' : (dataIter a script).1.n.dataWm = l.height := e
+    obtain ⟨k, b, k1, k2, hb, hne, rfl⟩ := hmem l (by rw [hi.split]; exact List.mem_append_left _ hl)
+    obtain ⟨b', hb', hh⟩ := hok k k1 k2
+    rw [hb] at hb'
+    have : b = b' := by simpa using hb'
+    subst this
+    have : dataHeight b = k := hh hne
+    rw [e']; show dataHeight b ≤ _; omega
+
 end Submit
